@@ -36,7 +36,9 @@ ASSUMPTIONS = [
     'classification of scipp / numpy operations into fresh / view / in-place in harness/translate/kernels.py (trusted; '
     'exercised by the dynamic snapshots)',
     'functions listed as untranslated are covered by the dynamic snapshots only',
-    'loops are unrolled twice and every if-branch is a separate path in the translated IR',
+    'control flow is joined (both branches translated, differing bindings become views of both values); loop bodies are '
+    'repeated until the abstract state is stable; constructors / displays store references and do not write; method calls '
+    'on objects dispatch to every class of the package defining that method; external functions are pure only if whitelisted',
     'a call to another translated function is replaced by that function\'s summary (parameters it may write, parameters '
     'its result may alias), which Lean re-checks for the callee',
 ]
@@ -905,10 +907,12 @@ def sc_errors():
 
 def correspond_ir(ctx):
     done, failed = tr_kernels.analyse(ctx.repo)
-    ctx.note('untranslated (dynamic only): ' + '; '.join(f'{f}:{q} [{e}]' for f, q, e in failed))
-    ctx.note(f'translated: {len(done)} functions, {sum(len(fi.paths) for fi in done)} paths; '
-             f'public with aliasing bits: {sum(1 for fi in done if fi.public and fi.bits)}; '
-             'helpers writing a parameter by design: ' + ', '.join(f'{fi.qual}{fi.allowed}' for fi in done if fi.allowed))
+    ctx.note(f'untranslated (dynamic only), {len(failed)}: ' + ('; '.join(f'{f}:{q} [{e}]' for f, q, e in failed) or 'none'))
+    ctx.note(f'translated, {len(done)} functions ({sum(1 for fi in done if fi.public)} public, '
+             f'{sum(1 for fi in done if not fi.public)} helpers; {sum(len(p) for fi in done for p in fi.paths)} IR instructions; '
+             f'{sum(1 for fi in done if fi.bits)} with aliasing conversions, {sum(2 ** fi.bits for fi in done)} configurations in total): '
+             + ', '.join(f'{fi.file}:{fi.qual}' for fi in done))
+    ctx.note('helpers writing a parameter by design: ' + ', '.join(f'{fi.qual}{fi.allowed}' for fi in done if fi.allowed))
     ctx.count('ir:translated-functions', len(done))
     ctx.count('ir:untranslated-functions', len(failed))
     head = ctx.driver(['c09.kernels'])[0].split()
